@@ -144,39 +144,49 @@ where
                 let vmax = vdomain.max();
                 let wmin = wdomain.min();
                 let wmax = wdomain.max();
-                // The constraint is: u * v = w  <=>  u = w / v  <=>  v = w / u
+                // The constraint is: u * v = w
                 //
-                // Given domains for u and v, we can then deduce that the domain of w must be
-                // in range [umin - vmax .. umax + vmin]. The constraining domain is built and
-                // intersected with the current domain of w in .process_domain()-call.
-                //
-                // Same application of constraining domain is done for the other two variables.
-                //   w = u * v  =>  [umin * vmin .. umax * vmax]
+                // Given domains for u and v, the domain of w must be within the smallest and
+                // the largest of the four corner products; with negative bounds the extremes
+                // are not necessarily umin * vmin and umax * vmax.
+                let corners = [
+                    umin.saturating_mul(vmin),
+                    umin.saturating_mul(vmax),
+                    umax.saturating_mul(vmin),
+                    umax.saturating_mul(vmax),
+                ];
+                let wlow = corners.iter().copied().min().unwrap();
+                let whigh = corners.iter().copied().max().unwrap();
+
+                // The quotient bounds
                 //   u = w / v  =>  [wmin / vmax .. wmax / vmin]
                 //   v = w / u  =>  [wmin / umax .. wmax / umin]
+                // only hold when no operand can be negative and the divisor cannot be zero;
+                // otherwise the operand is left as it is and is constrained when the other
+                // operands become known.
+                let nonnegative = umin >= 0 && vmin >= 0 && wmin >= 0;
+                let (ulow, uhigh) = if nonnegative && vmin > 0 {
+                    (
+                        wmin.checked_div(vmax).unwrap_or(umin),
+                        wmax.checked_div(vmin).unwrap_or(umax),
+                    )
+                } else {
+                    (umin, umax)
+                };
+                let (vlow, vhigh) = if nonnegative && umin > 0 {
+                    (
+                        wmin.checked_div(umax).unwrap_or(vmin),
+                        wmax.checked_div(umin).unwrap_or(vmax),
+                    )
+                } else {
+                    (vmin, vmax)
+                };
                 //
                 // The constraint is not dropped until all variables converge into numbers.
                 Ok(state
-                    .process_domain(
-                        &wwalk,
-                        Rc::new(FiniteDomain::from(
-                            umin.saturating_mul(vmin)..=umax.saturating_mul(vmax),
-                        )),
-                    )?
-                    .process_domain(
-                        &uwalk,
-                        Rc::new(FiniteDomain::from(
-                            wmin.checked_div(vmax).unwrap_or(umin)
-                                ..=wmax.checked_div(vmin).unwrap_or(umax),
-                        )),
-                    )?
-                    .process_domain(
-                        &vwalk,
-                        Rc::new(FiniteDomain::from(
-                            wmin.checked_div(umax).unwrap_or(vmin)
-                                ..=wmax.checked_div(umin).unwrap_or(vmax),
-                        )),
-                    )?
+                    .process_domain(&wwalk, Rc::new(FiniteDomain::from(wlow..=whigh)))?
+                    .process_domain(&uwalk, Rc::new(FiniteDomain::from(ulow..=uhigh)))?
+                    .process_domain(&vwalk, Rc::new(FiniteDomain::from(vlow..=vhigh)))?
                     .with_constraint(self))
             }
             // If all operators do not yet have domains, then keep the constraint until it can
